@@ -31,7 +31,7 @@ se.json = _JsonShim
 FLOATS = [0.5, -1.5, 2.0, 0.0]
 INTS = [-2, -1, 0, 1, 2]
 NUM_OPS = ["Equals", "GreaterThan", "GreaterThanEquals", "LessThan", "LessThanEquals"]
-TS = ["2020-01-01T10:00:00Z", "2020-01-01T12:00:00+02:00", "2020-01-01T10:00:00.5Z", "2020-01-01T05:00:00-05:00",
+TS = ["2020-01-01T10:00:00Z", "2020-01-01T12:00:00+02:00", "2020-01-01T10:00:00.5Z", "2020-01-01T06:30:00-03:30",
       "2020-01-01T09:59:59Z", "2021-06-30T23:59:59+00:00"]
 TS_INSTANT = [36000.0, 36000.0, 36000.5, 36000.0, 35999.0, 47174399.0]   # seconds relative to 2020-01-01T00:00Z
 
@@ -356,3 +356,41 @@ def rule_order(x: int, t1: int, t2: int, has_default: bool) -> bool:
     if x < t2: return got == ("next", "D")
     if has_default: return got == ("next", "B")
     return got == ("failed", "States.NoChoiceMatched")
+
+
+# --------------------------------------------------------------------- additions after the seeded-change round
+SECOND_OPS = [("BooleanEquals", False), ("BooleanEquals", True), ("IsPresent", True), ("IsPresent", False), ("IsBoolean", True), ("IsBoolean", False),
+              ("IsNull", True), ("StringEquals", "")]
+
+
+def _leaf_truth(op, c, v):
+    if op == "BooleanEquals": return ref.boolean_equals(v, c)
+    if op == "IsPresent": return (v is not ref.MISSING) == c
+    if op == "IsBoolean": return v is not ref.MISSING and (isinstance(v, bool) == c)
+    if op == "IsNull": return v is not ref.MISSING and ((v is None) == c)
+    return ref.string("Equals", v, c)
+
+
+@condition(timeout={"quick": 120, "thorough": 300}, functions=["choose() called repeatedly on the same Variable (second rule, And/Or members): no state may be carried between rule evaluations"],
+           outside=["IsNull applied to a missing Variable"])
+def repeated_variable(o1: int, o2: int, vk: int, vb: bool, shape: int) -> bool:
+    """
+    requires: 0 <= o1 < 8 and 0 <= o2 < 8 and vk in (0, 1, 2, 4) and 0 <= shape < 3
+    requires: not (vk == 0 and (o1 == 6 or o2 == 6))
+    ensures: _
+    """
+    v = mk(vk, 0, "", vb)
+    (op1, c1), (op2, c2) = pick(SECOND_OPS, o1), pick(SECOND_OPS, o2)
+    r1 = {"Variable": "$.v", op1: c1}
+    r2 = {"Variable": "$.v", op2: c2}
+    t1, t2 = _leaf_truth(op1, c1, v), _leaf_truth(op2, c2, v)
+    if shape == 0:          # two rules in sequence
+        rules = [dict(r1, Next="A"), dict(r2, Next="D")]
+        want = ("next", "A") if t1 else (("next", "D") if t2 else ("next", "B"))
+    elif shape == 1:        # And of two references
+        rules = [{"And": [r1, r2], "Next": "A"}]
+        want = ("next", "A") if (t1 and t2) else ("next", "B")
+    else:                   # Or with a negated second reference
+        rules = [{"Or": [r1, {"Not": r2}], "Next": "A"}]
+        want = ("next", "A") if (t1 or not t2) else ("next", "B")
+    return run_choice(rules, doc(v), "B") == want
